@@ -356,6 +356,13 @@ def run(tier, seed):
         "initial_run_count = number of Matches tests (TestList::run_count) is C04's",
         "reporter failures (exit 110) and TestRunnerExecuteErrors are outside the statement",
     ]
+    # end-to-end stage: real cargo-nextest runs over the scripted puppet workspace (real schedules, real
+    # process exit status), judged by this property's oracle (lib/e2e_general.py)
+    try:
+        import e2e_general
+        e2e_general.stage(chk, PROP, tier, seed)
+    except RuntimeError as ex:
+        chk.violation("broken-obligation", "e2e-build", dict(error=str(ex)[-3000:]), no_input=True)
     return chk.finish(
         gate, "make -C coq Properties/C01.vo && coqc gen/assump_C01.v (Print Assumptions)",
         ["Coq 8.16.1 kernel + vm_compute",
